@@ -505,7 +505,7 @@ func (s *concScen) writeAll() (applied int) {
 			s.bad("panic", "writer: %v", p)
 		}
 	}()
-	deadline := time.Now().Add(4 * time.Second)
+	deadline := time.Now().Add(patience(4 * time.Second))
 	for i := range s.ops {
 		if s.failed() || time.Now().After(deadline) {
 			return i
